@@ -4,6 +4,7 @@
 //! The extracted Coq model/spec driver (extract/driver) reads the same lines.
 mod util;
 mod c01;
+mod c04;
 mod c15;
 mod walk;
 
@@ -41,6 +42,7 @@ fn main() {
     let deck = if cfg!(feature = "shortdeck") { "short" } else { "std" };
     let summary = match args[1].as_str() {
         "c01" => c01::run(&o, deck),
+        "c04" => c04::run(&o, deck),
         "c15" => c15::run(&o, deck),
         "walk" => walk::run(&o, deck, "walk"),
         x => {
